@@ -4,6 +4,7 @@ kinds and under the match.hpp protocol).  Tie: full-trace differential run on th
 (consume-then-fail probes in every slot and context, with and without actions).  Oracle: cursor
 comparison on the implementation's own enter/exit brackets."""
 from . import engine, profiles
+from .diffrun import Config
 from .engine import oracle_rewind, oracle_surv_spans
 
 ORACLES = [('rewind', oracle_rewind)]
@@ -18,6 +19,11 @@ def run(tier: str) -> int:
                                     ctx_names=['top', 'sor-first', 'seq-tail', 'in-opt', 'in-tcrf']),
         profiles.random_profile('rnd', False, True, 16, 80, ORACLES, actions_mode='bool',
                                 inputs=profiles.inputs_exhaustive(4, 5, cap_q=150, cap_t=700), per_tu=2),
+        # the same property over a buffer_input (its own rewind marks: rewind_save / rewind_restore of buffer_input.hpp), fetched byte by byte
+        profiles.systematic_profile('buf', lambda k, f: f != 'state', True, 40, 140, ORACLES, actions_mode='bool',
+                                    inputs=profiles.inputs_exhaustive(3, 4, cap_q=60, cap_t=300), per_tu=2,
+                                    configs=lambda g, root, tier: [Config(root, 1, 'r', 'lf_crlf', 2, 1, 0), Config(root, 0, 'o', 'lf_crlf', 2, 1, 0)],
+                                    ctx_names=['top', 'sor-first', 'seq-tail', 'in-at']),
         # every leaf rule: a leaf has no rewind guard of its own; it must not consume before it knows that it matches
         profiles.atoms_profile('atoms', ORACLES, cap_q=160, cap_t=600, per_tu=3),
     ]
